@@ -288,6 +288,7 @@ func staged(doc map[string]any, stages []string) (string, *gq.Out) {
 func (p *c07) RunCase(i int) *core.CaseResult {
 	defer withNoise()()
 	r := &core.CaseResult{}
+	defer withUsage(r, "C07")()
 	c := p.cases[i]
 	for di, mk := range p.docs {
 		var composed string
